@@ -1,4 +1,6 @@
 """ Monitors for the application workload: request tracker (shared), C03, C04, C09, C10, C12. """
+import os
+
 from supervisor.states import ProcessStates, RUNNING_STATES, STOPPED_STATES
 
 from monitors.lib import Monitor
@@ -47,6 +49,7 @@ class Tracker(Monitor):
         self.queued_epochs = set()
         self.distribution_epochs = set()
         self.process_epochs = set()
+        self.epoch_info = {}       # (nick, inc, app, epoch) -> what was known when the plan was built
         self.received = {}         # (receiver nick, inc, source nick, namespec) -> (time, state) of the last event
         w.on_hook('fsm_process_event', self.on_process_event_received)
         w.on_hook('starter_start_applications', lambda inst, *a, **k: self.bump(inst, None))
@@ -116,9 +119,17 @@ class Tracker(Monitor):
             busy = set(inst.supvisors.starter.get_application_job_names())
         except Exception:
             busy = set()
+        # what the instance knows, when it builds the plan, of the jobs in progress on the other instances
+        try:
+            state = peek(self.w, inst.nick, 'supvisors.get_supvisors_state')
+            foreign = sorted({i for i in list(state['starting_jobs']) + list(state['stopping_jobs'])
+                              if i != inst.identifier})
+        except Fault:
+            foreign = []
         for app in apps:
             key = (inst.nick, inst.inc, app)
             self.epoch[key] = self.epoch.get(key, 0) + 1
+            self.epoch_info[key + (self.epoch[key],)] = {'t': self.w.now, 'foreign_jobs': foreign}
             if app_name is None:
                 # the automatic start of every application (DISTRIBUTION, restart_sequence)
                 self.distribution_epochs.add((inst.nick, inst.inc, app, self.epoch[key]))
@@ -381,10 +392,10 @@ class StartSequenceMonitor(Monitor):
                 self.violate('C03/sequence-0-started:by-the-automatic-start', f"{req['sender']} requested {namespec} "
                              f"whose start_sequence is application={app_seq} process={seq} as part of the automatic "
                              f"start of all applications at vt={vt(run.world)}", case=run.describe())
-        if in_distribution_plan and req['sender_state'] == 'OPERATION' and seq > 0:
-            # restart_sequence: refused while any instance has jobs in progress; served, it must not interleave with the
-            # start sequence that another instance is driving for the same application - a lower sequence process
-            # that this instance itself sees STARTING through the request of somebody else is not finished
+        plan_key = (req['sender'], req['inc'], app_name, req['epoch'])
+        if seq > 0 and plan_key not in tr.process_epochs and plan_key not in tr.queued_epochs:
+            # 1b. a lower sequence process that the requester itself sees STARTING / BACKOFF, that it has not requested
+            #     in this plan (started through another instance, by Supervisor, ...), has not finished starting
             w = run.world
             for other_ns, (oapp, oprog) in run.procs.items():
                 if oapp != app_name or other_ns == namespec:
@@ -392,23 +403,32 @@ class StartSequenceMonitor(Monitor):
                 oseq = run.model[oapp]['programs'][oprog].get('start_sequence', 0)
                 if not 0 < oseq < seq:
                     continue
-                theirs = [r for r in tr.open_starts if r['namespec'] == other_ns and not r['resolved'] and
-                          (r['sender'], r['inc']) != (req['sender'], req['inc']) and
-                          w.instances[r['sender']].alive and w.instances[r['sender']].inc == r['inc'] and
-                          tr.truth.get((r['target_nick'], other_ns)) in (10, 30)]
-                if not theirs:
+                if any(r['namespec'] == other_ns and r['sender'] == req['sender'] and r['inc'] == req['inc'] and
+                       r['epoch'] == req['epoch'] for r in tr.requests):
+                    continue   # requested by this plan: clause 1
+                where = [i.nick for i in w.live() if tr.truth.get((i.nick, other_ns)) in (10, 30)]
+                if not where:
                     continue
-                self.count('foreign_sequence_checks')
+                self.count('foreign_start_checks')
                 try:
                     seen = peek(w, req['sender'], 'supvisors.get_process_info', other_ns)[0]['statecode']
                 except Fault:
                     continue
-                if seen in (10, 30):
-                    self.violate('C03/process-order:sequence-driven-by-another-instance',
-                                 f"{req['sender']} (restart_sequence, OPERATION) requested {namespec} (start_sequence "
-                                 f"{seq}) at vt={vt(w)} while it sees {other_ns} (start_sequence {oseq}) "
-                                 f"{'STARTING' if seen == 10 else 'BACKOFF'} through the request of "
-                                 f"{theirs[0]['sender']} on {theirs[0]['target_nick']}", case=run.describe())
+                if seen not in (10, 30):
+                    continue
+                info = tr.epoch_info.get(plan_key, {})
+                if in_distribution_plan and req['sender_state'] == 'OPERATION' and info.get('foreign_jobs'):
+                    # restart_sequence is refused while any instance has jobs in progress
+                    mech = ':restart-sequence-served-over-jobs-in-progress-elsewhere'
+                else:
+                    # ApplicationStartJobs.process_job skips a process that is not stopped and moves on at once
+                    mech = ':process-already-starting-skipped-without-waiting'
+                self.violate('C03/process-order' + mech,
+                             f"{req['sender']} ({req['sender_state']}) requested {namespec} (start_sequence {seq}) at "
+                             f"vt={vt(w)} while it sees {other_ns} (start_sequence {oseq}) "
+                             f"{'STARTING' if seen == 10 else 'BACKOFF'} on {where}, which it has not requested in this "
+                             f"plan (jobs known elsewhere when the plan was built: {info.get('foreign_jobs')})",
+                             case=run.describe())
         if automatic:
             self.count('automatic_emissions')
             # 3. sequence 0 is never started automatically: never by the automatic start of all applications, and by
